@@ -658,7 +658,9 @@ class DavSession:
                 self.tokens[c].append(cur_token)
             toks = self.tokens[c]
             pick = toks[:1] + toks[1:][-(self.max_sync_tokens - 1):] if len(toks) > self.max_sync_tokens else toks
-            for tok, tk in [("", "empty")] + [(t, "issued") for t in pick] + \
+            # issued tokens first, newest first (an initial sync must not be what makes a token
+            # the collection handed out usable), then the empty token, then a foreign one
+            for tok, tk in [(t, "issued") for t in reversed(pick)] + [("", "empty")] + \
                            [(FOREIGN_TOKENS[self.foreign_i % len(FOREIGN_TOKENS)], "foreign")]:
                 sync.append(self._sync_report(c, path, base_url, tok, tk, members))
             self.foreign_i += 1
